@@ -244,19 +244,22 @@ TrexNode(id, dur) == Leaf(EncTrex([version |-> 0, flags |-> 0, track_id |-> From
 TrafNode(tf, p) ==
   LET explicit == tf.base \in {"start", "end", "exact", "both"}
       hasOff   == tf.base # "exact"
+      \* optional field defSize: all samples of the run have the tfhd default size and the run carries
+      \* no per-sample sizes (outside the domain of C09, used for the adversarial bases of C06-C08)
+      hasDef   == "defSize" \in DOMAIN tf /\ tf.defSize.some
       tfhdFlags == (IF explicit THEN TFHD_BASE ELSE 0) + (IF tf.base \in {"moof", "both"} THEN TFHD_BASE_IS_MOOF ELSE 0)
-                   + (IF tf.tfhdDur.some THEN TFHD_DUR ELSE 0)
+                   + (IF tf.tfhdDur.some THEN TFHD_DUR ELSE 0) + (IF hasDef THEN TFHD_SIZE ELSE 0)
       tfhd == [ version |-> 0, flags |-> tfhdFlags, track_id |-> FromInt(tf.track),
                 base_data_offset |-> IF explicit THEN Some(p.base) ELSE None,
                 sample_description_index |-> None, default_sample_duration |-> tf.tfhdDur,
-                default_sample_size |-> None, default_sample_flags |-> None ]
-      trunFlags == (IF hasOff THEN TRUN_OFFSET ELSE 0) + (IF tf.durs.some THEN TRUN_DUR ELSE 0) + TRUN_SIZE
+                default_sample_size |-> IF hasDef THEN Some(FromInt(tf.defSize.v)) ELSE None, default_sample_flags |-> None ]
+      trunFlags == (IF hasOff THEN TRUN_OFFSET ELSE 0) + (IF tf.durs.some THEN TRUN_DUR ELSE 0) + (IF hasDef THEN 0 ELSE TRUN_SIZE)
                    + (IF tf.cts.some THEN TRUN_CTS ELSE 0)
       n == Len(tf.sizes)
       trun == [ version |-> tf.trunV, flags |-> trunFlags, sample_count |-> FromInt(n),
                 data_offset |-> IF hasOff THEN Some(p.off) ELSE None, first_sample_flags |-> None,
                 sample_durations |-> IF tf.durs.some THEN tf.durs.v ELSE <<>>,
-                sample_sizes |-> [i \in 1..n |-> FromInt(tf.sizes[i])],
+                sample_sizes |-> IF hasDef THEN <<>> ELSE [i \in 1..n |-> FromInt(tf.sizes[i])],
                 sample_flags |-> <<>>, sample_cts |-> IF tf.cts.some THEN tf.cts.v ELSE <<>> ]
   IN Cont(TRAF, <<>>, << Leaf(EncTfhd(tfhd)),
                         Leaf(EncTfdt([version |-> tf.tfdtV, flags |-> 0, base_media_decode_time |-> tf.tfdt])),
